@@ -31,7 +31,9 @@ Inductive fkind := FScalar | FRel (tgt : Z).
 Record schema := {
   sc_fields : list (Z * list (Z * fkind));   (* class -> all (also inherited) mapped fields *)
   sc_sub : list (Z * Z);                     (* (c, a): c is a (non-strict) subclass of a *)
-  sc_enums : list (Z * Z)                    (* (class, attribute): the column is Enum-typed *)
+  sc_enums : list (Z * Z);                   (* (class, attribute): the column is Enum-typed *)
+  sc_nums : list (Z * Z);                    (* (class, attribute): the column is numeric (int / float) *)
+  sc_texts : list (Z * Z)                    (* (class, attribute): the column is plain text (str) *)
 }.
 Record obj := { o_key : Z; o_cls : Z; o_fields : list (Z * val) }.
 Definition world := list obj.
@@ -125,7 +127,8 @@ Inductive cond :=
 | CAnd (a b : cond) | COr (a b : cond)
 | CNot (a : cond)                            (* a node kind the translator does not know *)
 | CTruth (o : operand)                       (* a bare attribute used as condition *)
-| CInSet (cs : list val) (item : operand).   (* in_(item, {..}) / contains({..}, item): the container is a set / frozenset literal *)
+| CInSet (cs : list val) (item : operand)    (* in_(item, {..}) / contains({..}, item): the container is a set / frozenset literal *)
+| COther.                                    (* a condition with an operand the translator does not know (method call, index on an attribute) *)
 Record query := {
   q_the : bool;                    (* the(...) instead of an(...) *)
   q_setof : bool;                  (* set_of([sel], ...) instead of entity(sel, ...) *)
@@ -190,6 +193,7 @@ Fixpoint eval_cond (w : world) (b : binding) (c : cond) : res bool :=
                     | Err e => Err e
                     | Ok y => Ok (existsb (fun c => val_eq eq_fuel w y c) cs)
                     end
+  | COther => Err AttrErr                          (* its in-memory meaning is not modelled *)
   end.
 
 Fixpoint bindings (sc : schema) (w : world) (vars : list (Z * Z)) : list binding :=
